@@ -14,6 +14,7 @@ LEVEL_TEXT = ("Static structural proof of necessary conditions: (R7.1) every nor
               "computed from the single adjustment (1 + header) computed in validate; (R7.3) in the closure of "
               "SpreadsheetValidator.validate no possibly-None conversion result is used arithmetically or "
               "dereferenced unguarded. Equality with string-level validation and shuffle invariance are NOT decided.")
+LEVEL_EXTRA = "Added after the seeded evaluation: (R7.4) the column-structure checks see the caller's table, not the onset-sorted copy; (R7.5) the onset pass maps back to file rows through original_index; (R7.6) a row is excluded from the row-level and temporal checks only under an error-severity test."
 
 FUNCS = ["validate", "_run_checks", "_run_onset_checks", "_validate_column_structure"]
 
